@@ -152,6 +152,12 @@ pub fn catalogue() -> Vec<Probe> {
         push(name, "derive the public key of a Secret key".into(), format!("(k: &Key<{va}, Secret>) {{ let _ = k.public_key(); }}"), true);
         push(name, "derive a 'public key' of a Local key".into(), format!("(k: &Key<{va}, Local>) {{ let _ = k.public_key(); }}"), false);
         push(name, "derive a 'public key' of a Public key".into(), format!("(k: &Key<{va}, Public>) {{ let _ = k.public_key(); }}"), false);
+        // ---- deriving a verification key: only a signing secret key has one (a PKE key must not turn into a signing key)
+        for kk in KINDS {
+            push(name, format!("derive a signing public key from a {kk} key"), format!("(k: &Key<{va}, {kk}>) {{ let _: Key<{va}, Public> = k.public_key(); }}"), kk == "Secret");
+            push(name, format!("verify a token with the key derived from a {kk} key"), format!("(t: SealedToken<{va}, Public, P>, k: &Key<{va}, {kk}>, v: &NoValidation<P>) {{ let _ = t.verify(&k.public_key(), v); }}"), kk == "Secret");
+            push(name, format!("seal a local key to the key derived from a {kk} key"), format!("(l: Key<{va}, Local>, k: &Key<{va}, {kk}>) {{ let _ = l.seal(&k.public_key()); }}"), false);
+        }
         // ---- other routes to the key bytes: conversions, borrows, accessors (only expose_key() may give them out)
         for kk in ["Local", "Secret", "PkeSecret"] {
             for (what, body) in [
